@@ -147,39 +147,53 @@ theorem reads_meet_spec_uniform (inp : Input) (fuel : Nat) (h : Uniform inp) :
 
 /-! ### histories: several loads on one `Loader`
 
-`history steps fuel` runs the loads one after the other on the same loader: `visitedDocuments` and the components
-already resolved in those documents survive, the in-progress set is reset, `rootLocation` / `rootDir` are assigned but
-never read (table LoaderState).  Each load is judged against ITS OWN root: with the switch off it reads nothing but
-that root, whatever the loader loaded before (a `LoadFromData` after a located load reads nothing at all); with the
-switch on a document loaded by an earlier load of the same loader counts as already loaded (`Input.known`).
-`GoodHist`: the loads share one file universe and a located root's file sits in it at its location. -/
+Every entry point resets the in-progress state and, since c555d93, the documents cache (table LoaderState:
+`loader_state_as_modelled`, `loader_state_resets`); `rootLocation` / `rootDir` survive but are never read.  So a load on
+a reused loader reads exactly what the same load reads on a fresh one, and every single-load theorem holds for every
+load of every history, against that load's OWN root and references — no hypothesis on the history. -/
 
-/-- first sentence, every load of every history, full strength -/
-theorem history_switch_off_reads_root_only (store : List (Url × File)) (steps : List Input) (fuel : Nat)
-    (hg : GoodHist store steps) :
-    ∀ e ∈ history steps fuel, e.inp.allowed = false → ∀ u ∈ e.st.log, some u = e.inp.root :=
-  fun e he hoff => (runH_inv store fuel steps [] St.init hg (CarryOK.init store) e he).off hoff
+/-- a reused loader reads, load by load, exactly what fresh loaders read -/
+theorem history_is_fresh_loads (steps : List Input) (fuel : Nat) :
+    history steps fuel = steps.map (fun inp => ⟨inp, (load inp fuel).1, (load inp fuel).2⟩) :=
+  runH_fresh fuel steps St.init
 
-/-- second sentence, every load of every history, outside the exclusion -/
-theorem history_switch_on_reads_are_resolutions_partial (store : List (Url × File)) (steps : List Input) (fuel : Nat)
-    (hg : GoodHist store steps) :
-    ∀ e ∈ history steps fuel, e.st.foreign = false → AllJust e.inp e.st.log :=
-  fun e he hf => (runH_inv store fuel steps [] St.init hg (CarryOK.init store) e he).just hf
+theorem history_mem (steps : List Input) (fuel : Nat) (e : StepOut) (he : e ∈ history steps fuel) :
+    e.inp ∈ steps ∧ e.st = (load e.inp fuel).1 ∧ e.ok = (load e.inp fuel).2 := by
+  rw [history_is_fresh_loads, List.mem_map] at he
+  obtain ⟨inp, hi, rfl⟩ := he
+  exact ⟨hi, rfl, rfl⟩
+
+/-- first sentence, every load of every history, full strength: nothing but THIS load's root is read, whatever the
+loader loaded before (a `LoadFromData` after a located load reads nothing at all) -/
+theorem history_switch_off_reads_root_only (steps : List Input) (fuel : Nat) :
+    ∀ e ∈ history steps fuel, e.inp.allowed = false → ∀ u ∈ e.st.log, some u = e.inp.root := by
+  intro e he hoff
+  rw [(history_mem steps fuel e he).2.1]
+  exact switch_off_reads_root_only e.inp fuel hoff
+
+/-- second sentence, every load of every history, outside the exclusion: justified by this load's own root and the
+documents read in THIS load -/
+theorem history_switch_on_reads_are_resolutions_partial (steps : List Input) (fuel : Nat) :
+    ∀ e ∈ history steps fuel, e.st.foreign = false → AllJust e.inp e.st.log := by
+  intro e he hf
+  have hm := (history_mem steps fuel e he).2.1
+  rw [hm] at hf ⊢
+  exact (load_inv e.inp fuel).just hf
+
+/-- … and at full strength for the loads over a uniform universe -/
+theorem history_switch_on_reads_are_resolutions_uniform (steps : List Input) (fuel : Nat) :
+    ∀ e ∈ history steps fuel, Uniform e.inp → AllJust e.inp e.st.log := by
+  intro e he hu
+  rw [(history_mem steps fuel e he).2.1]
+  exact switch_on_reads_are_resolutions_uniform e.inp fuel hu
 
 /-- both sentences for every load of a history -/
-theorem history_reads_meet_spec_partial (store : List (Url × File)) (steps : List Input) (fuel : Nat)
-    (hg : GoodHist store steps) :
+theorem history_reads_meet_spec_partial (steps : List Input) (fuel : Nat) :
     ∀ e ∈ history steps fuel, e.st.foreign = false → Spec e.inp e.st.log := by
   intro e he hf
-  have hI := runH_inv store fuel steps [] St.init hg (CarryOK.init store) e he
-  unfold Spec
-  split
-  · exact hI.just hf
-  · next ha => exact hI.off (by simpa using ha)
-
-/-- a fresh loader is the one-load history -/
-theorem history_single (inp : Input) (fuel : Nat) :
-    (history [inp] fuel).map (fun e => (e.st.log, e.ok)) = [((load { inp with known := [] } fuel).1.log, (load { inp with known := [] } fuel).2)] := rfl
+  have hm := (history_mem steps fuel e he).2.1
+  rw [hm] at hf ⊢
+  exact reads_meet_spec_partial e.inp fuel (by unfold ForeignBase; simp [hf])
 
 /-! ### the executable spec is the spec -/
 
@@ -187,22 +201,20 @@ theorem justifiedB_iff (inp : Input) (pre : List Url) (u : Url) :
     justifiedB inp pre u = true ↔ Justified inp pre u := by
   unfold justifiedB Justified Loaded
   simp only [Bool.or_eq_true, decide_eq_true_eq, List.any_eq_true, Bool.and_eq_true, List.mem_cons,
-    List.mem_append, List.mem_map]
+    List.mem_map]
   constructor
   · rintro (h | ⟨d, hd, r, hr, hf, hu⟩)
     · exact Or.inl h
     · refine Or.inr ⟨d, ?_, r, hr, hf, hu⟩
-      rcases hd with hd | ⟨x, hx, hd⟩ | ⟨x, hx, hd⟩
+      rcases hd with hd | ⟨x, hx, hd⟩
       · exact Or.inl hd
-      · exact Or.inr (Or.inl ⟨x, hx, hd.symm⟩)
-      · exact Or.inr (Or.inr ⟨x, hx, hd.symm⟩)
+      · exact Or.inr ⟨x, hx, hd.symm⟩
   · rintro (h | ⟨d, hd, r, hr, hf, hu⟩)
     · exact Or.inl h
     · refine Or.inr ⟨d, ?_, r, hr, hf, hu⟩
-      rcases hd with hd | ⟨x, hx, hd⟩ | ⟨x, hx, hd⟩
+      rcases hd with hd | ⟨x, hx, hd⟩
       · exact Or.inl hd
-      · exact Or.inr (Or.inl ⟨x, hx, hd.symm⟩)
-      · exact Or.inr (Or.inr ⟨x, hx, hd.symm⟩)
+      · exact Or.inr ⟨x, hx, hd.symm⟩
 
 theorem allJustFrom_iff (inp : Input) : ∀ (log pre : List Url),
     allJustFrom inp pre log = true ↔ ∀ s u t, log = s ++ u :: t → Justified inp (pre ++ s) u
@@ -423,9 +435,10 @@ def x5 : Input :=
     witnesses of F-C11-1 are not uniform -/
 example : Uniform x5 ∧ (load x5 16).1.log.length = 3 ∧ ¬ Uniform x0 ∧ ¬ Uniform x6 := by decide
 
-/-- a history: `LoadFromFile` of x5's root, then `LoadFromData` of a document with a dangling '#'-reference, switch
-    off in both: the second load reads NOTHING (the raw re-read has no location to read; it must not fall back to the
-    first load's file), then the first file again: its read happens, the cached document is not resolved again -/
+/-- a history: `LoadFromFile` of x5's root with the switch off (fails after the read), then `LoadFromData` of a document
+    with a dangling '#'-reference: the second load reads NOTHING (the raw re-read has no location to read; it must not
+    fall back to the first load's file), then the first file again with the switch on: since c555d93 the document
+    cached by the failed first load is not returned — the load reads all three files, as on a fresh loader -/
 def h1 : List Input :=
   [ { x5 with allowed := false, store := (fileUrl ["r", "a", "root.json"], x5.rootFile) :: x5.store },
     { x5 with allowed := false, entry := .data, store := (fileUrl ["r", "a", "root.json"], x5.rootFile) :: x5.store
@@ -433,7 +446,8 @@ def h1 : List Input :=
     { x5 with allowed := true, store := (fileUrl ["r", "a", "root.json"], x5.rootFile) :: x5.store } ]
 
 example : (history h1 16).map (fun e => (e.st.log, e.ok)) =
-    [ ([fileUrl ["r", "a", "root.json"]], false), ([], false), ([fileUrl ["r", "a", "root.json"]], true) ] := by decide
+    [ ([fileUrl ["r", "a", "root.json"]], false), ([], false),
+      ([fileUrl ["r", "a", "root.json"], fileUrl ["r", "a", "d.json"], fileUrl ["r", "a", "s.json"]], true) ] := by decide
 
 /-- path algebra: "../b/p.json" against /r/a/root.json -/
 example : resolvePath (some (fileUrl ["r", "a", "root.json"])) ⟨"", "", false, ["..", "b", "p.json"]⟩
@@ -547,27 +561,28 @@ theorem resolver_sites_complete :
 /-! ### what a load leaves behind in the `Loader` (table LoaderState, tie T for histories) -/
 
 open KinModel.Gen in
-/-- `rootLocation` and `rootDir` are assigned (by the first located load, by `LoadFromFile`) and NEVER read: an earlier
-load's location cannot influence a later one through them — the model of histories carries neither.
-`visitedDocuments` is touched by `loadFromDataWithPathInternal` only (created once, never reset: `carry` keeps `docs`);
-the in-progress set, its callbacks and the path are touched by `resetVisitedPathItemRefs`, `visitRef`, `unvisitRef`,
-`shouldVisitRef` only, and every entry point resets them (`carry` clears `inprog` and `pend`). -/
+/-- `rootLocation` and `rootDir` are assigned (by the first located document of a load, by `LoadFromFile`) and NEVER
+read: an earlier load's location cannot influence a later one through them.  `visitedDocuments` is touched by
+`loadFromDataWithPathInternal` and reset (`= nil`) by `resetVisitedPathItemRefs` (c555d93); the in-progress set, its
+callbacks and the path are touched by `resetVisitedPathItemRefs`, `visitRef`, `unvisitRef`, `shouldVisitRef` only. -/
 theorem loader_state_as_modelled : ∀ r ∈ loaderState,
     (r.field = "rootLocation" → r.fn = "loadFromDataWithPathInternal" ∧ r.access = "assign" ∧ r.detail = "location.Path") ∧
     (r.field = "rootDir" → r.fn = "LoadFromFile" ∧ r.access = "assign") ∧
-    (r.field = "visitedDocuments" → r.fn = "loadFromDataWithPathInternal") ∧
+    (r.field = "visitedDocuments" → r.fn = "loadFromDataWithPathInternal" ∨
+      (r.fn = "resetVisitedPathItemRefs" ∧ r.access = "assign" ∧ r.detail = "nil")) ∧
     (r.field = "visitedRefs" ∨ r.field = "backtrack" ∨ r.field = "visitedPath" →
       r.fn = "resetVisitedPathItemRefs" ∨ r.fn = "visitRef" ∨ r.fn = "unvisitRef" ∨ r.fn = "shouldVisitRef") ∧
     (r.field = "visitedPathItemRefs" → r.fn = "resetVisitedPathItemRefs" ∨ (r.fn = "ResolveRefsIn" ∧ r.access = "read")) := by decide
 
 open KinModel.Gen in
-/-- every load entry point resets the in-progress state; `visitedDocuments` is created once and never reset -/
+/-- every load entry point calls `resetVisitedPathItemRefs`, which resets ALL the state a load builds up — the
+in-progress set, the callbacks, the path and the documents cache: the model's `carry` is `St.init` -/
 theorem loader_state_resets :
     (∀ f ∈ ["LoadFromURI", "LoadFromData", "LoadFromDataWithPath"],
       ∃ r ∈ loaderState, r.fn = f ∧ r.field = "resetVisitedPathItemRefs" ∧ r.access = "call") ∧
-    (loaderState.filter (fun r => r.field == "visitedDocuments" && r.access == "assign")).length = 1 ∧
-    (∀ r ∈ loaderState, r.fn = "resetVisitedPathItemRefs" → r.access = "assign" ∧
-      (r.field = "visitedRefs" ∨ r.field = "backtrack" ∨ r.field = "visitedPath" ∨ r.field = "visitedPathItemRefs")) := by decide
+    (∀ fld ∈ ["visitedRefs", "backtrack", "visitedPath", "visitedPathItemRefs", "visitedDocuments"],
+      ∃ r ∈ loaderState, r.fn = "resetVisitedPathItemRefs" ∧ r.field = fld ∧ r.access = "assign") ∧
+    (∀ r ∈ loaderState, r.fn = "resetVisitedPathItemRefs" → r.access = "assign") := by decide
 
 /-! ### the walked positions and their order, regenerated from openapi3/loader.go (tie T) -/
 
